@@ -39,6 +39,14 @@ def tasks(tier):
                 t.append(dict(module="xform", fn="h_transform", shape=dict(vars=v, cons=c, W=W, fmt=fm[k % 3]), opts=dict(exp_window=(-3 * W - 1, 3 * W + 1))))
         t.append(dict(module="xform", fn="h_transform", shape=dict(vars=["boxed", "lower"], cons=["ge"], W=2, fmt="coo", jac_pattern=[[0, 0], [0, 0], [0, 1]], hess_pattern=[[0, 0], [1, 1], [1, 1], [0, 1], [1, 0]]), opts=dict(exp_window=(-7, 7))))
         t.append(dict(module="xform", fn="h_transform", shape=dict(vars=["boxed", "lower"], cons=["ranged"], W=2, fmt="csc", jac_pattern=[[0, 1]], hess_pattern=[[0, 0]]), opts=dict(exp_window=(-7, 7))))
+        # "for all evaluation points" includes the second and later evaluations of callbacks that
+        # hand out one cached object (constant Jacobian / Hessian) or memoise per point
+        # sparsity patterns that change from one evaluation point to the next (same nnz)
+        pbr = [dict(jac=[[0, 0]], hess=[[0, 0], [1, 1]]), dict(jac=[[0, 1]], hess=[[0, 1], [1, 0]]), dict(jac=[[0, 0]], hess=[[0, 0], [1, 1]])]
+        for fmt in ("coo", "csr"):
+            t.append(dict(module="xform", fn="h_transform", shape=dict(vars=["boxed", "lower"], cons=["ge"], W=2, fmt=fmt, rounds=3, patterns_by_round=pbr), opts=dict(exp_window=(-7, 7))))
+        for pol, fmt, c in (("cached", "coo", ["eq0"]), ("memo", "csr", ["ge"]), ("cached", "csc", ["eqb"])):
+            t.append(dict(module="xform", fn="h_transform", shape=dict(vars=["boxed"], cons=c, W=1, fmt=fmt, policy=pol, rounds=3), opts=dict(exp_window=(-4, 4))))
         return t
     k = 0
     for a in CK:
@@ -50,4 +58,7 @@ def tasks(tier):
         t.append(dict(module="xform", fn="h_transform", shape=dict(vars=["boxed", "fixed"], cons=[a], W=0, fmt="coo")))
     t.append(dict(module="xform", fn="h_transform", shape=dict(vars=["boxed", "lower"], cons=["ge", "eqb"], W=3, fmt="coo", jac_pattern=[[0, 0], [0, 0], [1, 1], [0, 1]], hess_pattern=[[0, 0], [1, 1], [1, 1], [0, 1], [1, 0]]), opts=dict(exp_window=(-10, 10))))
     t.append(dict(module="xform", fn="h_transform", shape=dict(vars=["free", "upper"], cons=["ranged", "le"], W=3, fmt="csr", jac_pattern=[[1, 0]], hess_pattern=[[1, 1]]), opts=dict(exp_window=(-10, 10))))
+    for pol in ("cached", "memo"):
+        for fmt in ("coo", "csr", "csc"):
+            t.append(dict(module="xform", fn="h_transform", shape=dict(vars=["boxed", "lower"], cons=["eqb", "ge"], W=2, fmt=fmt, policy=pol, rounds=3), opts=dict(exp_window=(-7, 7))))
     return t
